@@ -100,7 +100,7 @@ def main(tier, seed):
         rep.sample({"text": texts[len(CORPUS) + 1], "impl": impl[len(CORPUS) + 1]})
         rep.sample({"text": texts[len(CORPUS) + 7], "impl": impl[len(CORPUS) + 7]})
         # exhaustive small scope by chunk hashes
-        scopes = [(ALPHA15, 6), (ALPHA22, 4)] if tier == "quick" else [(ALPHA15, 8), (ALPHA22, 6)]
+        scopes = [(ALPHA15, 6), (ALPHA22, 4)] if tier == "quick" else [(ALPHA15, 7), (ALPHA22, 6)]
         exhaustive = []
         for alpha, maxlen in scopes:
             ops = []
